@@ -44,6 +44,8 @@ pub fn guarded<T>(f: impl FnOnce() -> T) -> Result<T, String> {
 }
 
 pub fn quiet_panics() {
+    // IKV_LOUD=1: keep the default hook (message and location on stderr) while debugging a case by hand
+    if std::env::var("IKV_LOUD").is_ok() { return; }
     std::panic::set_hook(Box::new(|_| {}));
 }
 
